@@ -123,6 +123,13 @@ func openStorage(dir string, opt Options) (*storage, error) {
 	if s.log, err = log.Open(filepath.Join(dir, "log"), 0700, logOpt); err != nil {
 		return nil, err
 	}
+	if s.snaps.index > s.log.LastIndex() {
+		// crashed after an installed snapshot was stored,
+		// but before the log was reset to it
+		if err = s.log.Reset(s.snaps.index); err != nil {
+			return nil, opError(err, "Log.Reset(%d)", s.snaps.index)
+		}
+	}
 	if s.log.Count() > 0 {
 		data, err := s.log.Get(s.log.LastIndex())
 		if err != nil {
